@@ -268,7 +268,7 @@ def _run_ino(prop, tier, seed, plan, tmp, t0, only_scn):
             nontriv.add(steps_hash(scenarios[sid]))
         seen = set()
         for v in rr["viol"]:
-            if prop not in v["props"] and "*" not in v["props"]:
+            if prop not in v["props"] and "*" not in v["props"] and not (set(plans.ALIAS.get(prop, ())) & set(v["props"])):
                 continue
             if v["cause"] in seen:
                 continue
@@ -352,6 +352,14 @@ def _run_ino(prop, tier, seed, plan, tmp, t0, only_scn):
 def run_check(prop, tier, seed):
     plan = plans.PLANS[prop]
     try:
+        if plan["engine"] == "lin" and plan.get("also_ino"):
+            # the scenario engine first (it writes the evidence file), then the stress engine adds to it
+            rc = run_ino(prop, tier, seed, dict(plan, quick=plan["also_ino"]["quick"], thorough=plan["also_ino"]["thorough"], mc=plan.get("mc", [])))
+            if rc != 2:
+                import engine_lin
+                rc2 = engine_lin.run(prop, tier, seed, plan, merge=True, full=True)
+                rc = 2 if rc2 == 2 else max(rc, rc2)
+            return rc
         if plan["engine"] == plans.INO:
             rc = run_ino(prop, tier, seed, plan)
             if rc != 2 and plan.get("also_lin"):
